@@ -15,6 +15,7 @@ RULE = ("Hypothesis: well-formed sequences on 2 channels with time/key signature
         "Non-trivial: n in {d-1,d,d+1}, a note of length m or m+1, k >= 2, or a multi-channel input for set_channel. "
         "Distinct by case digest.")
 RULE = RULE + " Rounds e-g: self-concatenated inputs (pad, cutoff, set_channel), scale with the optional meta_sequence argument, channel pools, silent notes, SEQUENCE_CONTROL noise, far tick shifts."
+RULE = RULE + " Round i: one controller written twice on a tick; order-aware comparison of control-change values."
 ASSUMPTIONS = ["cutoff: total duration is not part of the statement and is not compared",
                "set_channel is compared at event level (note pairing may change when two channels shared a pitch)"]
 TIERS = {"quick": dict(shards=8, examples=1500, alt_ppqn=[480, 7], alt_shards=3),
@@ -80,6 +81,16 @@ def _read_views(out, seq):
     return r
 
 
+def _cc_order(events, tick=lambda t: t, channel=lambda c: c):
+    """values of the control changes per (tick, channel, controller) in list order: for one controller on one tick the later
+    message is the one in force"""
+    d = {}
+    for e in events:
+        if e[1] == O.CC:
+            d.setdefault((tick(e[0]), channel(e[2]), e[8]), []).append(e[4])
+    return {k: v for k, v in d.items() if len(v) > 1}
+
+
 def check(case):
     out = Outcome()
     op = case["op"]
@@ -111,6 +122,17 @@ def check(case):
     if res is None:
         return out
     ev1, d1 = res
+    # order of same-tick control changes of one controller (read from the relative list and, on a replica, the absolute list)
+    k_ = case.get("k", 1) if op == "scale" else 1
+    want_cc = _cc_order(ev0, tick=lambda t: t * k_, channel=(lambda c: case["c"]) if op == "set_channel" else (lambda c: c))
+    if want_cc and not (op == "set_channel" and len({e[2] for e in ev0 if e[1] == O.CC}) > 1):
+        out.label("repeated-controller-on-a-tick")
+        try:
+            got_abs = _cc_order(O.abs_events(build.replica(seq).abs)[0])
+        except Exception as e:
+            got_abs = f"{type(e).__name__}: {e}"
+        if _cc_order(ev1) != want_cc or got_abs != want_cc:
+            out.fail("control-change-order", f"{op}: per (tick, channel, controller) want {want_cc}, relative list {_cc_order(ev1)}, absolute list {got_abs}")
     c0 = O.canon((ev0, d0))[0]
     c1 = O.canon((ev1, d1))[0]
     if op == "pad":
